@@ -5,7 +5,7 @@
 //!   fixed: property=<id> <commit> <what failed>
 //! Only `known:` lines suppress anything, and only the exact signature they name.
 
-use crate::runner::VERIF_ROOT;
+use crate::runner::verif_root;
 
 #[derive(Clone, Debug)]
 pub struct Known {
@@ -14,7 +14,7 @@ pub struct Known {
 }
 
 pub fn load(property: &str) -> Vec<Known> {
-    let path = std::path::Path::new(VERIF_ROOT).join("KNOWN_FINDINGS.txt");
+    let path = verif_root().join("KNOWN_FINDINGS.txt");
     let text = match std::fs::read_to_string(path) {
         Ok(t) => t,
         Err(_) => return Vec::new(),
